@@ -94,6 +94,8 @@ class PostponeOnce:
 def gen_catalogue(seed):
     t = core.Tape(seed=core.run_seed(seed, "C16-catalogue", 0))
     cfgs = []
+    kinds = ["default", "fqn", "rrel", "postpone-once", "plain", "plain-single-mm"]
+    nitem = 0
     for i in range(12):
         template = "items" if i % 3 != 2 else "mods"
         cfg = {
@@ -110,7 +112,9 @@ def gen_catalogue(seed):
         if template == "mods" and t.chance(1, 4, "ws"):
             cfg["ws"] = " \t\n"
         if template == "items":
-            cfg["provider"] = t.pick(["default", "fqn", "rrel", "postpone-once", "plain", "plain-single-mm"], "provider")
+            # every provider kind at least once, then drawn
+            cfg["provider"] = kinds[nitem] if nitem < len(kinds) else t.pick(kinds, "provider")
+            nitem += 1
             n = t.draw(3, "nclasses")
             names = []
             for _ in range(n):
@@ -128,12 +132,16 @@ def gen_catalogue(seed):
         cfgs.append(cfg)
     # inputs of the items template: generated single-file worlds, valid and invalid
     items_inputs = []
-    for j in range(10):
+    from ..gen import Ref
+    for j in range(11):
         qualified = j % 2 == 1
-        w = gen_world(t, "/sim/w3gen", nfiles=1, qualified=qualified, max_refs=8, vals=True)
+        # '::' names with several parts only resolve with RREL (FQN splits at '.'): inputs 1 and 5 carry them and are
+        # "valid" for the RREL configurations only - what matters here is that history does not change the outcome
+        w = gen_world(t, "/sim/w3gen", nfiles=1, qualified=qualified, max_refs=8, vals=True,
+                      alt_multipart=j in (1, 5, 10))
         fe = w.files[w.main]
         kind = ["valid", "valid", "valid", "syntax", "dangling", "ambiguous", "valid", "boom", "matchboom",
-                "matchboom"][j]
+                "matchboom", "colons"][j]
         if kind == "syntax":
             ents = [e for e in w.all_ents(fe) if e.kind != "inner"]
             t.pick(ents, "syntax-at").pre_tokens = ["%"]
@@ -142,6 +150,13 @@ def gen_catalogue(seed):
         elif kind == "ambiguous" and w.refs:
             r = t.pick(w.refs, "amb-ref")
             fe.tail_tokens = ["def", r.target.name]
+        elif kind == "colons":
+            # a multi-part name written with the '::' match rule next to '.' names: resolvable by RREL only
+            # (a model whose references all use the '::' rule: a provider must not remember the '.' of earlier loads)
+            w.files[w.main].items[:] = []
+            w.files[w.main].imports[:] = []
+            fe.tail_tokens = ["box", "cbx", "{", "def", "cbd", "def", "cbe", "}", "altuse", "cu", ":", "cbx::cbd", ",",
+                              "cbx::cbe"]
         elif kind == "boom":
             fe.tail_tokens = ["def", "boom"]
         elif kind == "matchboom":
